@@ -71,10 +71,11 @@ fn prepare(w: &World, scen: &str) -> Value {
 			let s2 = b.receive(&s1, None).unwrap();
 			let s3 = a.finalize(&s2).unwrap();
 			a.post(s3.tx_or_err().unwrap()).unwrap();
-			w.mine("M").unwrap();
-			// and a second pending one that stays pending
+			// and a second pending one that stays pending (created before the block: initiating a send
+			// refreshes the outputs, and the confirmation must be left to the operation under test)
 			let p = a.init_send(default_args(2 * G)).unwrap();
 			a.lock(&p).unwrap();
+			w.mine("M").unwrap();
 			json!({})
 		}
 		"scan-repair" | "scan-repair-delete-unconfirmed" => {
